@@ -391,6 +391,7 @@ func (fr *Frame) assign(st *State, l ast.Expr, v Val) {
 		if isPtr {
 			p := fr.expr(st, n.X)
 			fr.safety(st, "nil-deref", fr.src(n.X), n, "(not (= "+p.T+" 0))")
+			fr.guardedAccess(st, n, p, base, f, "write")
 			x.writeField(st, p, base, f, v)
 		} else {
 			old := fr.expr(st, n.X)
